@@ -46,6 +46,15 @@
    ring through the hook sync42::verif::set_slots).  Observation, not a violation: puts never
    wait on ingest (nothing waits on cnd_memtable_rolled_over), so while ingest is stalled the
    memtable grows without back-pressure.
+   Locks.  Proto models the `compaction` mutex of LsmTree and the two condition variables `stall`
+   and `compact` that are waited on with it, nothing else.  The other locks of the store (the
+   manifest RwLock `mani`, the `version` mutex, the store mutex of KeyValueStore and its wait
+   list, the file manager) are taken inside those critical sections and, in the code as it is,
+   never held across a wait; the model does not show that.  A change that holds one of them
+   across stall.wait / compact.wait (e.g. mani.write() taken before the stall loop) deadlocks the
+   store without ever reaching Proto.all_parked; the check catches such a state by progress only
+   (watchdog verdict `lockheld`: the compaction mutex or the store mutex cannot be had for 5 s
+   while a flush waits; gated-writer schedules: a put does not return although nothing is stalled).
    Not proved here: fairness of the scheduler and of Mutex/Condvar (a runnable thread runs). *)
 From Coq Require Import NArith ZArith List Bool Arith.
 From Blue Require Import Gen.Const_Stall Lsm.Model Stall.Select Stall.Known Stall.Proto
